@@ -161,6 +161,34 @@ def occupancy_oracle(obs):
 
 
 # ------------------------------------------------------------------------ C11
+def pending_io_bytes_oracle(obs):
+    """Data sitting in destination writes that are queued or running: at most max_io_queue_size chunks of io_chunksize (whole run)."""
+    viol = []
+    cfg = obs.config
+    bound = cfg.max_io_queue_size * cfg.io_chunksize
+    stats = {'io_write_tasks_sized': 0, 'max_pending_io_bytes': 0, 'max_io_task_bytes': 0}
+    pending = {}
+    cur = 0
+    for e in obs.events:
+        if e.get('stage_of') != 'io':
+            continue
+        if e['kind'] == 'exec.submit' and e.get('nbytes') is not None:
+            stats['io_write_tasks_sized'] += 1
+            pending[e['seq']] = e['nbytes']
+            cur += e['nbytes']
+            stats['max_io_task_bytes'] = max(stats['max_io_task_bytes'], e['nbytes'])
+            if cur > stats['max_pending_io_bytes']:
+                stats['max_pending_io_bytes'] = cur
+                if cur > bound and not viol:
+                    viol.append(V(f'{cur} bytes sit in {len(pending)} queued-or-running destination writes (largest single write {max(pending.values())} bytes); '
+                                  f'documented bound max_io_queue_size x io_chunksize = {cfg.max_io_queue_size} x {cfg.io_chunksize} = {bound}',
+                                  sym='pending-io-bytes-overrun', oversized_write=max(pending.values()) > cfg.io_chunksize))
+        elif e['kind'] == 'exec.finish' and e.get('seq') in pending:
+            cur -= pending.pop(e['seq'])
+    stats['reached_io_bytes_bound'] = int(stats['max_pending_io_bytes'] >= bound)
+    return viol, stats
+
+
 def upload_buffer_oracle(obs):
     """bytes read from user streams by the submission stage minus bytes whose
     part / put request has returned."""
